@@ -481,6 +481,20 @@ fn repeated_runs(inp: &Input, reps: usize, l: &mut Local) {
         }
     }
     let dump = Minidump::read(&inp.dump[..]).expect("dump");
+    // one symbolizer reused for a second and third processing of the same dump (its symbol cache is warm then)
+    {
+        let p = Symbolizer::new(DelaySup { syms: inp.syms.clone(), delays: vec![0, 1], calls: Mutex::new(0) });
+        for round in 0..3 {
+            let st = block_on(process_minidump(&dump, &p)).expect("process");
+            l.eval();
+            let got = render(&st);
+            if got != reference {
+                let (sig, what) = describe_difference(&reference, &got);
+                l.violation(format!("c13:nondeterministic-output:reused-symbolizer:{}{sig}", inp.tag), format!("processing number {} with one symbolizer: {what}", round + 1), json!({"input": inp.name, "round": round}));
+                break;
+            }
+        }
+    }
     let mt = tokio::runtime::Builder::new_multi_thread().worker_threads(4).build().expect("runtime");
     let mut distinct = std::collections::HashSet::new();
     for r in 0..reps {
@@ -505,7 +519,7 @@ fn main() {
         let mut def = CheckDef::new(
             "C13",
             "model_checking",
-            "E2 controlled scheduler over the real process_minidump future (threads walked through join_all): for every generated input (3 threads x 3 modules, each module asked for by two threads; variants: module names differing only in case / same binary under two names, plain, 16-row /proc limits, alias-colliding CFI rules, missing+corrupt symbols, amd64 with 8 register rules), supplier suspensions per lookup 1..2 [thorough 3] and spurious-poll budget 0..1, EVERY IO completion order / poll interleaving is executed and all four reports (text, brief, JSON, pretty JSON) must equal the zero-delay run byte for byte; plus every supplier delay vector in {0..2}^n under a poll-to-completion executor. Hash seeds cannot be enumerated: 32 [thorough 128] repeated in-process runs (fresh RandomState per HashMap) alternating with a free-running 4-thread tokio runtime are LABELLED SAMPLING and contribute evidence only. distinct_nontrivial = distinct (input, suspensions, completion order) + delay vectors.",
+            "E2 controlled scheduler over the real process_minidump future (threads walked through join_all): for every generated input (3 threads x 3 modules, each module asked for by two threads; variants: module names differing only in case / same binary under two names, plain, 16-row /proc limits, alias-colliding CFI rules, missing+corrupt symbols, amd64 with 8 register rules), supplier suspensions per lookup 1..2 [thorough 3] and spurious-poll budget 0..1, EVERY IO completion order / poll interleaving is executed and all four reports (text, brief, JSON, pretty JSON) must equal the zero-delay run byte for byte; plus every supplier delay vector in {0..2}^n under a poll-to-completion executor. Hash seeds cannot be enumerated: 32 [thorough 128] repeated in-process runs (fresh RandomState per HashMap) alternating with a free-running 4-thread tokio runtime are LABELLED SAMPLING and contribute evidence only; each input is also processed three times in a row with one symbolizer (warm symbol cache) and printed after a 32-bit report on a fresh thread. distinct_nontrivial = distinct (input, suspensions, completion order) + delay vectors.",
         );
         def.exhaustive = false; // the hash-seed half is repetition, not enumeration
         def.assumptions = vec![
